@@ -1014,15 +1014,11 @@ class NodeFor:
             + (
                 self.identifiers[0]
                 if len(self.identifiers) == 1
-                else "[" + self.identifiers + "]"
+                else "[" + ", ".join(self.identifiers) + "]"
             )
             + " in "
-            + self.what
-            + " "
-            + self.expression
-            + " do "
-            + self.block
-            + ")"
+            + (f"{self.what} " if self.what else "")
+            + f"{self.expression} do {self.block})"
         )
 
     def collectVars(self, freeVars, boundVars, additionalBoundVars):
